@@ -23,7 +23,7 @@ func CompileLuaChunk(source string, s ast.BlockStat) (kidx uint, consts []ir.Con
 	rootIrC := ir.NewCodeBuilder("<global chunk>", kp)
 	rootIrC.DeclareLocal("_ENV", rootIrC.GetFreeRegister())
 	irC := rootIrC.NewChild("<main chunk>")
-	c := &compiler{CodeBuilder: irC}
+	c := &compiler{CodeBuilder: irC, expDepth: new(int)}
 	c.compileFunctionBody(ast.Function{
 		ParList: ast.ParList{HasDots: true},
 		Body:    s,
@@ -34,11 +34,22 @@ func CompileLuaChunk(source string, s ast.BlockStat) (kidx uint, consts []ir.Con
 
 type compiler struct {
 	*ir.CodeBuilder
+
+	// Current depth of nested expressions being compiled (shared with the
+	// compilers of nested functions).  Compilation is recursive, so it is
+	// limited to maxExpDepth in order to avoid irrecoverable Go stack overflows
+	// on very long chains of operators or calls, which the parser builds
+	// without recursing.
+	expDepth *int
 }
+
+// The maximum depth of an expression tree.
+const maxExpDepth = 100000
 
 func (c *compiler) NewChild(name string) *compiler {
 	return &compiler{
 		CodeBuilder: c.CodeBuilder.NewChild(name),
+		expDepth:    c.expDepth,
 	}
 }
 
